@@ -31,6 +31,7 @@ REQUIRED = {
         'rise:line-segment-view-rows-checked': 50,
         'sessions-with-repeated-steps': 5,
         'rise:classified-intervals-crossing-no-grid-level': 3,
+        'datasets-with-a-flat-stretch-between-two-drizzles': 5,
     }
     for tier in ('quick', 'thorough')
 }
@@ -91,6 +92,11 @@ def run(ctx):
             zs = [v for _, v in case['z']]
             ups = sorted(b - a for a, b in zip(zs, zs[1:]) if b - a > 0.5)
             case['grid_step'] = float(max(2, round(1.5 * ups[len(ups) // 2]))) if ups else 8.0
+        if i % 5 in (1, 3):
+            # a classified interstorm interval during which the level does not move
+            case, ok = curves_corpus.with_flat_interstorm(case, rng)
+            if ok:
+                ctx.rec.hit('datasets-with-a-flat-stretch-between-two-drizzles')
         check_dataset(ctx, case, 'cli' if i < ncli else 'function', i, session=(i % 4 == 1))
     if s.get('field'):
         from . import c05
